@@ -333,6 +333,8 @@ class Slicer:
         # negative indexing not supported
         if isinstance(self.slices, list):
             new_slicer = copy(self)
+            new_slicer.__dict__.pop('shape', None)  # cached for the parent selection
+            new_slicer.__dict__.pop('size', None)
             new_slicer.slices = new_slicer.slices.__getitem__(item)
             return new_slicer
 
@@ -347,6 +349,8 @@ class Slicer:
                 item = (item[0], slice(col, col + 1))
             if isinstance(item[0], slice) and isinstance(item[1], slice):
                 new_slicer = copy(self)
+                new_slicer.__dict__.pop('shape', None)  # cached for the parent selection
+                new_slicer.__dict__.pop('size', None)
                 new_slicer.items = item
                 new_slicer.slices = (Slicer._process_sub_slice(self.slices[0], item[0], self.row_labels),
                                      Slicer._process_sub_slice(self.slices[1], item[1], self.col_labels))
